@@ -64,6 +64,8 @@ def make_table(spec):
         df = pd.concat([df, extra], axis=1)
     if spec.get('frame_class') == 'user':
         df = UserFrame(df)
+    if spec.get('no_duplicate_labels') and df.index.is_unique and df.columns.is_unique:
+        df = df.set_flags(allows_duplicate_labels=False)      # frames derived from it inherit the flag
     if spec.get('index_name') is not None and not isinstance(df.index, pd.MultiIndex):
         df.index.name = spec['index_name']       # e.g. the key column's name: set_index(key, drop=False)
     return df
@@ -168,6 +170,23 @@ def user_tokenizer_class(name):
         MemoWhitespaceTokenizer.__qualname__ = 'MemoWhitespaceTokenizer'
         globals()['MemoWhitespaceTokenizer'] = MemoWhitespaceTokenizer
 
+        class TupleWhitespaceTokenizer(sm.WhitespaceTokenizer):
+            """Hands out immutable tuples of tokens."""
+            def tokenize(self, input_string):
+                return tuple(super(TupleWhitespaceTokenizer, self).tokenize(input_string))
+
+        class TolerantWhitespaceTokenizer(sm.WhitespaceTokenizer):
+            """Does not raise on input that is not a string (None, NaN, numbers): no tokens."""
+            def tokenize(self, input_string):
+                if not isinstance(input_string, str):
+                    return []
+                return super(TolerantWhitespaceTokenizer, self).tokenize(input_string)
+        for nm, c in (('tuple', TupleWhitespaceTokenizer), ('tolerant', TolerantWhitespaceTokenizer)):
+            _USER_TOK[nm] = c
+            c.__module__ = __name__
+            c.__qualname__ = c.__name__
+            globals()[c.__name__] = c
+
         class LowerQgramTokenizer(sm.QgramTokenizer):
             def tokenize(self, input_string):
                 return super(LowerQgramTokenizer, self).tokenize(input_string.lower())
@@ -194,7 +213,7 @@ def make_tokenizer(spec, cls_override=None):
     kind = spec['kind']
     rs = bool(spec.get('return_set', False))
     if kind == 'ws':
-        cls, kw = (user_tokenizer_class(spec['user']) if spec.get('user') in ('lower', 'memo') else sm.WhitespaceTokenizer), {}
+        cls, kw = (user_tokenizer_class(spec['user']) if spec.get('user') in ('lower', 'memo', 'tuple', 'tolerant') else sm.WhitespaceTokenizer), {}
     elif kind == 'delim':
         cls, kw = (user_tokenizer_class('strip') if spec.get('user') == 'strip' else sm.DelimiterTokenizer), \
             {'delim_set': set(spec.get('delims', [' ']))}
@@ -253,6 +272,8 @@ def np_number(value, how):
         return value
     if how is True:
         how = 'int64' if isinstance(value, int) else 'float64'
+    if how == 'array0d':
+        return np.array(value)          # a 0-d ndarray (np.nditer, arr.reshape(())): mutable in place
     return getattr(np, how)(value)
 
 
@@ -556,6 +577,16 @@ def _exec_call2(ssj, call, objs=None):
     def tables():
         L = get('ltable', make_table)
         R = get('rtable', make_table)
+        if not call.get('keep_flags'):
+            # a table flagged allows_duplicate_labels=False whose key attribute is also its join attribute
+            # makes the library's internal projection [key, join] fail inside pandas (finding F15, judged
+            # by C15 alone): everywhere else that one combination is not presented
+            if L is not None and call.get('l_key') == call.get('l_attr') and 'ltable' not in objs and \
+                    not L.flags.allows_duplicate_labels:
+                L = L.set_flags(allows_duplicate_labels=True)
+            if R is not None and call.get('r_key') == call.get('r_attr') and 'rtable' not in objs and \
+                    not R.flags.allows_duplicate_labels:
+                R = R.set_flags(allows_duplicate_labels=True)
         if mode:
             L, R = _used_before(ssj, call, objs, L, R, mode)
         return L, R
